@@ -91,8 +91,10 @@ SUB_SPEC = ["sub=d=mem", "sub=d/e=kvplain", "sub=d=sub=e=mem", "sub=d=oshp", "su
 SUB_TWIN = ["sub=d=openonly", "sub=d=mntabove", "sub=d/e=mntnested", "sub=d=mntatnested", "sub=dx=mntsibling"]                                              # twin comparison only
 
 
-def sub_stages(ctx, wf="-"):
-    cfgs = [("FSCore.quick.cfg", "3")] if ctx.tier == "quick" else [("FSCore.quick.cfg", "3"), ("FSCore.thorough.cfg", "4")]
+def sub_stages(ctx, wf="-", deep=True):
+    # deep: the thorough FSCore configuration through the views is C07's own thorough tier; C03 and C05 judge one aspect of the
+    # Sub stages (well-formedness, error paths) and keep the quick configuration there in both tiers
+    cfgs = [("FSCore.quick.cfg", "3")] if ctx.tier == "quick" or not deep else [("FSCore.quick.cfg", "3"), ("FSCore.thorough.cfg", "4")]
     for cfg, depth in cfgs:
         graph_stage(ctx, "sub-spec-" + cfg.split(".")[1], "MC_FSCore.tla", cfg, "fscore", SUB_SPEC,
                     ["--names", "a,b", "--depth", depth, "--attr", "wf:" + wf], workers=8)
@@ -105,13 +107,13 @@ def c03_all(ctx):
     # no operation may terminate having made an entry unreachable, also when the store fails underneath it
     kvfault_stages(ctx)
     mount_stages(ctx)
-    sub_stages(ctx, wf="C03")
+    sub_stages(ctx, wf="C03", deep=False)
 
 
 def c05_all(ctx):
     fscore_stages(ctx)
     mount_stages(ctx)
-    sub_stages(ctx)
+    sub_stages(ctx, deep=False)
     links_stage(ctx)  # lib/checks_helpers.py: error type and path fields of Symlink / Lstat failures
     # failing system calls through os.FS with no root at all and under 1..3 Sub roots: the caller's names in every error
     graph_stage(ctx, "ospath-oserr", "MC_OSPath.tla", "OSPath.oserr.cfg", "ospath", ["oserr", "oserr0"], ["--attr", "map:C05,err:C05"], workers=4)
